@@ -157,7 +157,7 @@ func (e *Engine) rangeIter(x Value) Value {
 	switch x := x.(type) {
 	case *MapV:
 		it := &iter{kind: "map", m: x}
-		if e.mapAdversary && x != nil && x.n > 1 {
+		if e.mapAdversary && x != nil && x.n > 1 && !e.orderInsensitiveLoop(e.curRange) {
 			it.perm = e.permute(x)
 		}
 		return it
